@@ -157,7 +157,7 @@ def walk(n):
 
 
 TRANSPARENT = {'ImplicitCastExpr', 'ParenExpr', 'ExprWithCleanups', 'MaterializeTemporaryExpr',
-               'CXXBindTemporaryExpr', 'ConstantExpr', 'FullExpr', 'SubstNonTypeTemplateParmExpr'}
+               'CXXBindTemporaryExpr', 'ConstantExpr', 'FullExpr', 'SubstNonTypeTemplateParmExpr', 'CXXRewrittenBinaryOperator'}
 
 
 def strip(n, casts=True):
